@@ -496,6 +496,7 @@ void execute_output(const Plan &plan, Verdict &v, bool c17) {
         }
         if (op.kind != "msg" || !op.has_s) continue;
         size_t m0 = w.msgs.size();
+        int flushes0 = w.flushes;
         cur_units.clear();
         size_t pos = 0;
         while (pos < op.s.size() && !v.violated) {
@@ -511,11 +512,15 @@ void execute_output(const Plan &plan, Verdict &v, bool c17) {
             w.input(op.s.data() + pos, (int) n);
             pos += (size_t) n;
         }
-        if (w.ctx->buffer.position > 0) w.flush_input();   // idle timer: the message is complete as far as the controller is concerned
+        if (w.ctx->buffer.position > 0) {
+            w.flush_input();   // idle timer: the message is complete as far as the controller is concerned
+            COUNT("fault_idle_flush_completes_message");
+        }
         clock += op.s.size();
         COUNT("messages");
         if (v.violated || c17) continue;
         // ---- C06 oracle, per executed message (a `msg` op may hold several terminated messages)
+        std::vector<int> flush_totals = {0};   // acceptable numbers of flushes for the whole op (sum over its messages)
         for (size_t mi = m0; mi < w.msgs.size() && !v.violated; mi++) {
             const MsgRec &m = w.msgs[mi];
             // classify units
@@ -566,8 +571,9 @@ void execute_output(const Plan &plan, Verdict &v, bool c17) {
             for (auto &c : cl) nopen += c.cls == 2;
             if (nopen > 10) nopen = 10;
             bool matched = false;
+            bool fl_seen[2] = {false, false};
             std::string first_expect;
-            for (uint32_t mask = 0; mask < (1u << nopen) && !matched; mask++) {
+            for (uint32_t mask = 0; mask < (1u << nopen); mask++) {
                 std::string exp;
                 bool any = false;
                 size_t oi = 0;
@@ -585,7 +591,20 @@ void execute_output(const Plan &plan, Verdict &v, bool c17) {
                 if (any) exp += "\r\n";
                 int fl = (any && cfg.with_flush) ? 1 : 0;
                 if (mask == 0) first_expect = exp;
-                if (m.out == exp && m.flushes == fl) matched = true;
+                if (m.out == exp) {
+                    matched = true;
+                    fl_seen[fl] = true;
+                }
+            }
+            if (matched) {
+                // flushes are counted over the whole op below (a flush issued right after the message still belongs to it)
+                std::vector<int> nt;
+                for (int t : flush_totals)
+                    for (int f = 0; f < 2; f++)
+                        if (fl_seen[f]) nt.push_back(t + f);
+                std::sort(nt.begin(), nt.end());
+                nt.erase(std::unique(nt.begin(), nt.end()), nt.end());
+                flush_totals.swap(nt);
             }
             if (!matched) {
                 std::string units;
@@ -598,6 +617,12 @@ void execute_output(const Plan &plan, Verdict &v, bool c17) {
                     sig += " missing-terminator";
                 v.fail(rule, sig, fmt("message \"%s\" wrote \"%s\" with %d flush(es); units respond [%s], expected e.g. \"%s\"", c_escape(m.text).substr(0, 120).c_str(),
                                       c_escape(m.out).substr(0, 200).c_str(), m.flushes, units.c_str(), c_escape(first_expect).substr(0, 200).c_str()));
+            }
+            if (mi + 1 == w.msgs.size() && !v.violated) {
+                int got = w.flushes - flushes0;
+                if (std::find(flush_totals.begin(), flush_totals.end(), got) == flush_totals.end())
+                    v.fail("framing", "flush-count", fmt("messages \"%s\" caused %d flush call(s); exactly one per responding message is expected (%d)", c_escape(op.s).substr(0, 120).c_str(), got,
+                                                         flush_totals.empty() ? 0 : flush_totals.front()));
             }
             if (cl.size() >= 2) COUNT("probe_multi_unit_message");
             if (mi > 0) COUNT("probe_message_after_history");
@@ -786,7 +811,7 @@ void generate_output(Rng &r, const GenOpts &g, Plan &p, bool c17) {
             }
         }
         static const char *term[] = {"\n", "\r\n", "\r"};
-        msg += term[r.below(3)];
+        if (!r.chance(1, 7)) msg += term[r.below(3)];   // otherwise the idle timer completes the message with a zero-length call
         p.ops.push_back(Op("msg", {}, msg));
     }
 }
